@@ -57,7 +57,7 @@ def pmap(fn, items, nproc=None, chunk=None):
 
 # ------------------------------------------------------------ TLC validation
 def validate(records, module, name, batch=1500, env_key='TRACE_FILE', cfg=None,
-             tag='VERDICT', id_key='tid', heap='2g', extra_env=None, collect=()):
+             tag='VERDICT', id_key='tid', heap='2g', extra_env=None, collect=(), cfg_path=None):
     """Validate trace records (each with a unique integer id) in parallel TLC
     processes.  Returns (verdicts: id -> payload dict, stats)."""
     records = list(records)
@@ -69,7 +69,7 @@ def validate(records, module, name, batch=1500, env_key='TRACE_FILE', cfg=None,
         path = tlc.write_json(records[bi:bi + batch], '%s-%05d.json' % (name, bi // batch))
         env = {env_key: path}
         env.update(extra_env or {})
-        jobs.append(dict(module=module, cfg=cfg or module, env=env, workers=1, heap=heap,
+        jobs.append(dict(module=module, cfg=cfg or module, env=env, workers=1, heap=heap, cfg_path=cfg_path,
                          label='%s batch %d' % (name, bi // batch)))
     t0 = time.time()
     try:
